@@ -62,8 +62,19 @@ func (x *runner) finish(id int, corr bool, nontrivial bool, input interface{}, o
 		x.rep.CorrCases++
 		x.rep.CaseInputs[strconv.Itoa(id)] = input
 	}
-	if id%modSpan == 0 && x.a.Only < 0 {
-		x.rep.Samples = append(x.rep.Samples, map[string]interface{}{"input": input, "observed": observed})
+	if id%metaBase == 0 && x.a.Only < 0 {
+		// one sample per family; the per-load snapshots are left out (they are in the Coq case)
+		obs := observed
+		if mp, ok := observed.(map[string]interface{}); ok {
+			c := map[string]interface{}{}
+			for k, v := range mp {
+				if k != "run_B" && k != "loads" {
+					c[k] = v
+				}
+			}
+			obs = c
+		}
+		x.rep.Samples = append(x.rep.Samples, map[string]interface{}{"input": input, "observed": obs})
 	}
 	if x.a.Only >= 0 {
 		out, _ := json.MarshalIndent(map[string]interface{}{"input": input, "observed": observed, "coq": coq}, "", " ")
@@ -87,7 +98,7 @@ func main() {
 	rulesh.Clk = clk
 	x := &runner{a: a, root: rng.New(a.Seed), rep: emit.NewReport("C14", a.Seed, a.Tier), dist: emit.NewDistinct()}
 	x.rep.Rule = "reuse: load histories of 3-7 operations over 1-2 resources with equal rules under fresh IDs, statistic-reusable variants, duplicates; meta: one stateful subject rule (flow: throttling / warm-up / reject over private or shared statistics; breaker: three strategies with small thresholds; hotspot: QPS reject, QPS throttling, concurrency) plus permissive other rules, 10-40 requests in 2-4 segments, bursts of 1-3 reloads between segments; stat: designed accumulate-modify-decide scenarios. Non-trivial = reuse: some controller was kept for an equal rule across an effective load; meta: run A contains at least one rejection or wait after the first reload position and at least one admission (the subject rule's state matters); stat: always; distinct by full input."
-	nCorr := a.Pick(a.N, 24, 1000)
+	nCorr := a.Pick(a.N, 24, 500)
 	nMon := a.Pick(a.Mon, 300, 8000)
 	if a.Search {
 		nCorr = 0
